@@ -34,12 +34,12 @@ THOROUGH_RUNS = 300_000
 EXPECT_PROBES = ["staggered_starts", "overflow_to_none", "missing_in_max_min_rhs", "missing_in_max_min_lhs", "division_by_zero", "missing_as_zero",
                  "sub_engine_none_as_zero"]
 
-CORRUPT = ["ok", "none", "nan", "+inf", "-inf", "zero", "huge+", "huge-"]
+CORRUPT = ["ok", "none", "nan", "+inf", "-inf", "zero", "huge+", "huge-", "tiny"]
 
 
 def _corrupt_value(kind: str, v: float) -> float | None:
     return {"ok": v, "none": None, "nan": math.nan, "+inf": math.inf, "-inf": -math.inf, "zero": 0.0,
-            "huge+": 1.5e308, "huge-": -1.5e308}[kind]
+            "huge+": 1.5e308, "huge-": -1.5e308, "tiny": 4e-10}[kind]
 
 
 class Expect:
@@ -148,7 +148,7 @@ async def _run_formula(sim: Sim, spec: dict[str, Any], table: list[list[float | 
     if kind == "flat":
         built = fc.build_flat(tree, rxs, spec["leaf_naz"])
     else:
-        built = fc.build_composed(tree, rxs, spec["leaf_naz"], spec["top_naz"])
+        built = fc.build_composed(tree, rxs, spec["leaf_naz"], spec["top_naz"], spec.get("build_twice", False))
     out: list[tuple[int, float | None]] = []
     rx_out = built.engine.new_receiver(max_size=2000)
 
@@ -198,7 +198,8 @@ def scenario(sim: Sim) -> None:
         for k in range(rounds):
             # "huge" = finite values near the float limit: sums/products of them overflow, so the *result* is not
             # finite although every input is (-> None expected, whatever the expression computes otherwise)
-            w = [20, rate, rate // 2 + 1, 1, 1, (rate if i in divisors else 0), huge, huge]
+            # "tiny" = a valid divisor very close to, but not, zero: the quotient is defined and finite
+            w = [20, rate, rate // 2 + 1, 1, 1, (rate if i in divisors else 0), huge, huge, (2 if i in divisors else 0)]
             c = CORRUPT[ch.weighted("corrupt", w)]
             if c != "ok":
                 sim.fault("input_" + c)
@@ -211,7 +212,10 @@ def scenario(sim: Sim) -> None:
         if len(set(starts)) > 1:
             sim.probe("staggered_starts")
     tstar = max(starts)
-    spec = dict(n=n, rounds=rounds, kind=kind, tree=tree, leaf_naz=leaf_naz, top_naz=top_naz, starts=starts)
+    spec = dict(n=n, rounds=rounds, kind=kind, tree=tree, leaf_naz=leaf_naz, top_naz=top_naz, starts=starts,
+                build_twice=kind == "composed" and ch.chance("builders_built_twice", 0.25))
+    if spec["build_twice"]:
+        sim.probe("builder_built_twice_with_other_setting")
     sim.config.update(kind=kind, formula=fc.tree_str(tree), leaf_naz=leaf_naz, top_naz=top_naz, rounds=rounds)
     sim.ev("formula", fc.tree_str(tree), kind, leaf_naz, top_naz)
     sim.note(f"formula {fc.tree_str(tree)} kind={kind} leaf_naz={leaf_naz} top_naz={top_naz}")
